@@ -85,6 +85,12 @@ def alias_cases():
         if kind == "l": N = {"p": "src2/p", "k": "l", "target": "nowhere"}
         extra_ = [F("src2/p/inner", 5, 3)] if kind == "d" else []
         add("bystander-behind-link-%s" % kind, base + [D("src2"), N] + extra_ + [D("dst"), D("dst/src2"), L("dst/src2/p", "../../other/keep")], ["src2", "dst"], ["other/keep"], True)
+    # a source whose last component is `..` (or `.`) has no name of its own: its contents go into the destination, not next to it
+    dd = [D("p"), D("p/a"), D("p/a/sub"), F("p/a/f", 21, 95), D("q"), D("q/dd"), F("q/f", 33, 96), D("q/sub"), F("q/sub/keep", 5, 97)]
+    add("source-ending-in-dotdot", base + dd, ["p/a/sub/..", "q/dd"], ["q/f", "q/sub/keep", "p/a/f"], True)
+    add("source-ending-in-dotdot-slash", base + dd, ["p/a/sub/../", "q/dd/"], ["q/f", "q/sub/keep", "p/a/f"], True)
+    add("source-ending-in-dotdot-newdest", base + dd, ["p/a/sub/..", "q/fresh"], ["q/f", "q/sub/keep", "p/a/f"], True)
+    add("source-is-dotdot-T", base + dd, ["-T", "p/a/sub/..", "q/dd"], ["q/f", "q/sub/keep", "p/a/f"], True)
     # ... and a link in the destination that leads nowhere: a file copied "through" it would be created at a place nothing maps onto
     add("dangling-link-at-file-destination", base + [D("src2"), F("src2/p", 40, 91), D("dst"), D("dst/src2"), L("dst/src2/p", "../../other/not-there")], ["src2", "dst"], ["other/keep"], True)
     add("dangling-link-at-file-destination-T", base + [F("p", 40, 92), D("dst"), L("dst/q", "@ROOT@/other/not-there")], ["-T", "p", "dst/q"], ["other/keep"], True)
